@@ -311,7 +311,7 @@ def main() -> int:
     rep = Report(PROP)
     t = tier()
     sd = seed()
-    scale = 1 if t == "quick" else 60
+    scale = 4 if t == "quick" else 60
     cases = [("core", sd, i, 120) for i in range(80 * scale)]
     cases += [("utils", sd, i, 300) for i in range(32 * scale)]
     cases += [("sens", sd, i, 60) for i in range(48 * scale)]
